@@ -17,14 +17,14 @@ LEVEL_TEXT = ('Lean 4 theorems, for all shapes, masks, amplitudes and OPDs — t
               'transmission, so chains of planes give the same total field for both descriptions; propagate_dft is additive in the embedded '
               'field; intensity is the squared modulus of the coherent sum; composed end to end (segmented_eq_monolithic_end_to_end): '
               'a fresh wavefront through any non-empty chain of array-masked partitioned planes, then propagate_dft as the driver models it (generated window block and shapes, a tilt shift common to all fields, optional output mask: segmented_eq_monolithic_propagateDft) -> equal Wavefront.field and intensity at every sample; non-vacuity examples instantiate the whole end-to-end and interleaved theorems on a two-plane chain; well-formedness follows from the masks alone for constructed planes (splitPlane_wf_of_masks); Tilt planes anywhere in the chain and Wavefront(tilt=) as ONE theorem (segmented_eq_monolithic_interleaved: every field carries each Tilt once, data unchanged); through propagate_fft by composition with C09 (segmented_eq_monolithic_propagate_fft and …_intensity: under the hypotheses that propagate_fft answers FftOut.ok for both descriptions with the same reported wavelength, grid and output shape; no sampled class in this harness); a masked plane after the propagation keeps the equality (plane_after_propagation); segments with their own fitted tilts sum to the monolithic propagation on the common window (fitted_tilts_eq_monolithic, with C04); chain_exp: the explicit product of amplitude*exp(2 pi i opd/lambda) over the planes. The NumPy plumbing is a hand model checked against the '
-              'implementation, with both descriptions run on the real code.')
+              'implementation, with both descriptions run on the real code; the per-segment slices Plane._slice of the model are proved to be the regenerated helper.boundary_slice (pad 0) of each segment mask and the phasor offsets the regenerated slice_offset(s, self.shape) call of the loop body (segment_slices_are_boundary_slices); a 3-D mask with k >= 1 layers (incl. one) and a 2-D mask are read by Plane.shape / Plane.size / _plane_slice (regenerated, Gen/PlaneGeom) as the model reads them (C07 plane_geometry_matches_model).')
 LEVEL_NOTE = ('Partial: segments / intermediate fields with exactly one element are excluded by hypothesis (open known finding '
               'KF-C03-one-pixel-segment — not repaired because C06 as given makes a (1,1) array a broadcastable constant, so the two properties conflict on that input; the hypothesis ExtOK is evaluated by the model (c03.extok, extOKb_iff) on every case of the classes the ExtOK theorems cover: segmented-vs-monolithic chains in both number systems and the mixed Tilt/segmented chains; not for the fitted-tilt, re-use and big-aperture classes); the theorems '
               'cover a shift common to all fields (shared Tilt planes, Wavefront(tilt=)), an output mask and propagate_fft (via C09); per-segment '
               'fitted tilts are correspondence + oracle only. '
               'Trusted: Lean kernel, py2lean subset semantics, NumPy semantics as modelled, np.dot sums, generator coverage.')
 TECHNIQUE = 'Lean 4 proof (omega/induction/Finset sums) over translator-regenerated kernels + hand model with differential correspondence'
-GEN = ['Extent', 'FftScratch', 'FieldDispatch', 'FieldIdx', 'FieldMerge', 'FourierWiring', 'Helper', 'Helper20', 'Hex', 'Mesh', 'PlaneHandover', 'PlanePhase', 'PlanePx', 'PlaneType', 'PropagateMeta', 'TiltFit', 'Util', 'Window', 'WfViews', 'FieldAccum']
+GEN = ['Extent', 'FftScratch', 'FieldDispatch', 'FieldIdx', 'FieldMerge', 'FourierWiring', 'Helper', 'Helper20', 'Hex', 'Mesh', 'PlaneHandover', 'PlanePhase', 'PlanePx', 'PlaneType', 'PropagateMeta', 'TiltFit', 'Util', 'Window', 'WfViews', 'FieldAccum', 'PlaneLoop', 'PlaneGeom']
 OPS = ['C07', 'C03']
 RULE = ('cases: random supports on shapes 2..10, partitions into 1..9 segments (random labels = overlapping bounding boxes in half the cases, '
         'bands otherwise), chains of 1..3 masked planes (Pupil; also Image or plain Plane chains) with scalar/array amplitude and OPD, each plane described segmented or '
@@ -33,7 +33,7 @@ RULE = ('cases: random supports on shapes 2..10, partitions into 1..9 segments (
         'setting) signature; non-trivial = some plane has at least two segments')
 TRUSTED = ['the bounding box of propagate_dft\'s output mask is computed by the harness (lentil.boundary rule) and handed to the model; _mask_shape/_mask_shift are C02\'s',
            'the propagation models of C02 (propagateDft, generated window) and C09 (propagateFft) that the end-to-end theorems compose',
-           'NumPy slicing/broadcasting in Plane.multiply and util.boundary (modelled by hand in Model/Plane.lean)',
+           'NumPy slicing/elementwise product in Plane.multiply (the loop body itself is regenerated into Gen/PlaneLoop.lean and proved equal to the hand model: C07 loop_body_is_segPhasor) and util.boundary (first/last set row/column, modelled by hand as bboxSlice in Model/Plane.lean; the clamping arithmetic of helper.boundary_slice that turns it into Plane._slice is regenerated, Gen/Helper20, and proved to give the model\'s slices: segment_slices_are_boundary_slices)',
            'np.dot / einsum in fourier.dft2 compute the sums of products (Model/Fourier.lean; C01 checks dft2 itself)',
            'np.exp(1j*t) = cos t + i sin t']
 UNPROVEN = [
